@@ -6,6 +6,6 @@ out=$here/../.cache/ocaml
 mkdir -p "$out"
 cd "$out"
 coqc -Q "$here/../coq" JS "$here/../coq/Extract.v" >/dev/null
-cp "$here/driver.ml" "$here/genops.ml" .
-ocamlfind ocamlopt -O3 -w -a -package str Model.mli Model.ml genops.ml driver.ml -o driver 2>/dev/null || \
-ocamlfind ocamlopt -w -a Model.mli Model.ml genops.ml driver.ml -o driver
+cp "$here/driver.ml" "$here/genops.ml" "$here/textref.ml" "$here/textops.ml" .
+ocamlfind ocamlopt -O3 -w -a -package str Model.mli Model.ml genops.ml textref.ml textops.ml driver.ml -o driver 2>/dev/null || \
+ocamlfind ocamlopt -w -a Model.mli Model.ml genops.ml textref.ml textops.ml driver.ml -o driver
